@@ -3,7 +3,7 @@
 From Coq Require Import ZArith List Bool Lia.
 From VBase Require Import MachInt.
 From VModel Require Import Merkle.
-From VProofs Require Import MerkleBase MerkleSingle MerkleIdx MerkleBatch MerkleTotal.
+From VProofs Require Import MerkleBase MerkleSingle MerkleIdx MerkleBatch MerkleTotal MerkleBind MerkleRound.
 Import ListNotations.
 Open Scope Z_scope.
 
@@ -82,3 +82,29 @@ Proof. vm_compute. reflexivity. Qed.
 
 Example ex_short_path : verify Z Z.eqb mg 1781 5 [60] = Err InvalidProof /\ verify Z Z.eqb mg 1781 13 [60; 50; 291; 285] = Err (LeafIndexOutOfBounds 8 13).
 Proof. split; vm_compute; reflexivity. Qed.
+
+(* batch binding: hypotheses satisfiable with a WRONG claimed leaf, the collision branch is inhabited (merge = +) *)
+Definition ad_tree : mtree Z := {| mt_nodes := [0; 10; 3; 7]; mt_leaves := [1; 2; 3; 4] |}.
+
+Example ex_ad_new : mt_new Z 0 ad [1; 2; 3; 4] = Ok ad_tree.
+Proof. vm_compute. reflexivity. Qed.
+
+Example ex_batch_binding_hyps :
+  get_root Z ad {| bp_leaves := [2]; bp_nodes := [[1; 7]]; bp_depth := 2 |} [0] = Ok 10 /\
+  mt_root Z ad_tree = Ok 10 /\
+  find_batch_collision Z Z.eqb 0 ad ad_tree {| bp_leaves := [2]; bp_nodes := [[1; 7]]; bp_depth := 2 |} [0] = Some ((2, 1), (1, 2)) /\
+  is_collision Z ad ((2, 1), (1, 2)).
+Proof. repeat split; try (vm_compute; reflexivity). vm_compute. congruence. Qed.
+
+Example ex_batch_binding_two_hyps :
+  get_root Z ad {| bp_leaves := [1; 4]; bp_nodes := [[2]; [3]]; bp_depth := 2 |} [0; 3] = Ok 10 /\
+  get_root Z ad {| bp_leaves := [2; 4]; bp_nodes := [[1]; [3]]; bp_depth := 2 |} [0; 3] = Ok 10 /\
+  find_batch_collision2 Z Z.eqb 0 ad {| bp_leaves := [1; 4]; bp_nodes := [[2]; [3]]; bp_depth := 2 |}
+    {| bp_leaves := [2; 4]; bp_nodes := [[1]; [3]]; bp_depth := 2 |} [0; 3] = Some ((1, 2), (2, 1)).
+Proof. repeat split; vm_compute; reflexivity. Qed.
+
+(* into_paths on an honest opening = the individual proves (unsorted positions) *)
+Example ex_into_paths_spec :
+  into_paths Z mg {| bp_leaves := [60; 10; 50]; bp_nodes := [[20; 131]; [291]]; bp_depth := 3 |} [5; 0; 4]
+  = mapM (mt_prove Z ex_tree) [5; 0; 4].
+Proof. vm_compute. reflexivity. Qed.
